@@ -6,7 +6,7 @@ ASSUMPTIONS = {
     'A-tracing': 'dropped tracing statements and span guards do not affect control or data flow',
     'A-pin': "pin-project's project() is field access; Pin<&mut Self> methods are &mut self methods",
     'A-core': 'vstd specifications of core/std (Option, Result, HashMap incl. Entry API) and the assume_specifications in prelude/base.rs for Poll and the ? operator',
-    'A-hashmap': 'FnvHashMap behaves as std HashMap (vstd spec); Compact::compact only changes capacity',
+    'A-hashmap': 'FnvHashMap behaves as std HashMap (vstd spec); HashMap::shrink_to only changes capacity (Compact::compact itself is under contract in unit util_compact: contents unchanged; the table units call it through the frame-only model compact_map, which states exactly that contract)',
     'A-delayqueue': 'tokio-util DelayQueue: fresh key on insert; remove panics on an absent key; insert panics for timeout > 2^36-1 ms (and the wheel is polled often enough that its elapsed time is current); poll_expired never yields before the delay elapsed, each armed key at most once, Pending registers the waker, Ready(None) iff empty',
     'A-oneshot': 'tokio oneshot: send consumes the sender and hands the value to the paired receiver or returns it; close() happens-before a later is_closed()',
     'A-mpsc': 'tokio mpsc: poll_recv is FIFO, None is stable, Pending registers the waker',
@@ -31,6 +31,9 @@ VERUS_UNITS = {
     'trace_ctx': 'contracts.trace_ctx',
     'channels': 'contracts.channels',
     'cancellations': 'contracts.cancellations',
+    'util_compact': 'contracts.util_compact',
+    'transports': 'contracts.transports',
+    'lb_fairness': 'contracts.lb_fairness',
 }
 
 PROPS = {}
@@ -78,12 +81,12 @@ prop('C03', title='Abandoned calls are cancelled on the wire, exactly when neede
      level_note='Also proved: ResponseGuard::drop closes the receiver before queueing the cancellation and queues one iff armed; ResponseGuard::response disarms the guard once the receiver produced; Channel::call creates the armed guard before enqueueing the request.',
      not_covered='data races inside tokio close/send')
 prop('C05', title='Client enforces request deadlines, never early',
-     verus=['client'], kani=['k3_time_until_is_saturating_difference', 'k3_max_timer_delay_value'], technique=TECH_V + '; ' + TECH_K,
+     verus=['client'], native=['deadlines_bounded'], kani=['k3_time_until_is_saturating_difference', 'k3_max_timer_delay_value'], technique=TECH_V + '; ' + TECH_K,
      assumptions=COMMON_V + ['A-delayqueue', 'A-oneshot', 'A-clock'],
      level_text='Proof that insert_request arms exactly one timer for this id with delay min(deadline - now, MAX_TIMER_DELAY); that an expiry removes exactly the entry of the id its timer carried and delivers DeadlineExceeded to that entry\'s channel only; that a processed reply removes the timer (no later expiry); that pump_write polls expirations on every pass. Kani proves on the real code that time_until is the saturating difference for all instants.',
      level_note='Timer accuracy (never early, eventually fires) is tokio-util\'s (A-delayqueue).')
 prop('C07', SERVER_TOO, title='Deadlines propagate across hops without stretching',
-     verus=['client'], kani=['k2_deadline_written_as_remaining_time', 'k2_deadline_decode_total_and_shifted', 'k2_deadline_shift_law', 'k2_default_deadline_ten_seconds', 'k3_time_until_is_saturating_difference'],
+     verus=['client'], native=['server_context_bounded'], kani=['k2_deadline_written_as_remaining_time', 'k2_deadline_decode_total_and_shifted', 'k2_deadline_shift_law', 'k2_default_deadline_ten_seconds', 'k3_time_until_is_saturating_difference'],
      technique=TECH_K + '; ' + TECH_V,
      assumptions=['A-codec', 'A-clock', 'A-verifiers', 'A-extraction'],
      level_text='CBMC proof over all instants now1 <= now2 and all deadlines of the real serialize/deserialize: written duration = saturating D - now1; decoded D\' = now2 + duration; D\' >= D, D\' - D = transit, passed deadline arrives as now; default = now + 10 s. Verus proves the request written to the wire carries the caller\'s context (deadline forwarded unchanged).',
@@ -102,19 +105,20 @@ prop('C10', SERVER_TOO, NATIVE_SERVER, title='Shutdown is orderly: queued work i
      level_note='That dropping the dispatch future fails the remaining callers is Rust drop glue + A-oneshot.',
      not_covered='server side (unit server)')
 prop('C11', SERVER_TOO, NATIVE_SERVER, title='Tracked request state is bounded and fully reclaimed',
-     verus=['client', 'cancellations'],
+     verus=['client', 'cancellations', 'util_compact'],
      technique='Verus: representation invariant (timers<->entries bijection) + whole-view postconditions on the real table functions, extracted from /repo each run',
      level_text='Deductive proof, for all table states and all ids, that every public operation of the real in-flight tables preserves the timers<->entries bijection and changes the abstract view exactly as specified; the history quantifier is discharged by the invariant (every call sequence is a sequence of contracted calls).',
      level_note='Proof is about the extracted text (rules logged per run) against trusted models of HashMap/DelayQueue/oneshot.',
      assumptions=['A-extraction', 'A-tracing', 'A-pin', 'A-core', 'A-hashmap', 'A-delayqueue', 'A-oneshot', 'A-verifiers'])
 
 prop('C15', title='Shipped transports deliver messages intact and in order',
-     technique='Kani: loop-free full-domain harnesses on the real error-kind table and 128-bit id codec functions (complete proofs, not bounded)',
-     level_text='Proof by CBMC over the full input domain of tarpc\'s own wire tables (error kinds both directions incl. the primitive type written); the framing/codec layers are dependency code and enter as assumptions.',
-     level_note='Only tarpc-owned encoding functions are under contract.',
+     verus=['transports'],
+     technique='Kani: loop-free full-domain harnesses on the real error-kind table and 128-bit id codec functions (complete proofs, not bounded); ' + TECH_V + ' (the forwarding layer of the in-memory and serde transports)',
+     level_text='Proof by CBMC over the full input domain of tarpc\'s own wire tables (error kinds both directions incl. the primitive type written). Verus proof that every Stream/Sink function of the shipped transports (UnboundedChannel, bounded Channel, serde_transport::Transport) forwards: start_send hands the very item to the underlying queue/codec exactly once (whole-sequence postcondition on the accepted sequence) or reports an error and hands over nothing; poll_next yields exactly what the queue/codec yields (items unchanged, end-of-stream as end-of-stream, Pending as Pending, errors as errors) and never writes; readiness/flush/close answers are the underlying ones; the constructors cross-wire the two ends. The framing/codec layers and the queues are dependency code and enter as assumptions.',
+     level_note='Only tarpc-owned encoding and forwarding functions are under contract; FIFO and end-of-stream behaviour of tokio/futures queues and of the length-delimited serde codec are assumed (A-mpsc, A-codec).',
      kani=['k1_errorkind_written_as_u32_code', 'k1_errorkind_read_total_and_table', 'k1_errorkind_round_trip', 'k1_u128_round_trip_le_bytes', 'k1_cancel_shape_is_value_independent', 'k1_request_shape_is_value_independent'],
-     assumptions=['A-codec', 'A-verifiers'],
-     not_covered='length-delimited framing under fragmentation, serde-derived schemas, FIFO of the tokio/futures queues and end-of-stream signalling are dependency code (A-codec, A-mpsc): not claimed')
+     assumptions=['A-codec', 'A-mpsc', 'A-verifiers', 'A-extraction', 'A-pin', 'A-core'],
+     not_covered='length-delimited framing under fragmentation, serde-derived schemas beyond their shape, FIFO of the tokio/futures queues and their end-of-stream signalling are dependency code (A-codec, A-mpsc): not claimed; serde_transport::new / tcp / unix constructors (plain construction of dependency objects)')
 
 prop('C14', SERVER_TOO, NATIVE_SERVER, title="tarpc honours the pluggable transport's contract",
      verus=['client'], native=['client_wire_bounded'], technique=TECH_V + '; the transport model\'s start_send preconditions are the property\'s write conditions',
@@ -123,14 +127,14 @@ prop('C14', SERVER_TOO, NATIVE_SERVER, title="tarpc honours the pluggable transp
      level_note='Server channel and throttler call sites are in unit server when registered.',
      not_covered='server-side call sites until unit server is registered')
 prop('C16', SERVER_TOO, title='No peer-supplied input can crash an endpoint',
-     verus=['client'], kani=['k2_deadline_decode_total_and_shifted', 'k3_time_until_is_saturating_difference', 'k3_max_timer_delay_value', 'k3_deadline_field_always_renderable', 'k1_errorkind_read_total_and_table'],
+     verus=['client'], native=['server_wire_bounded', 'client_routing_bounded'], kani=['k2_deadline_decode_total_and_shifted', 'k3_time_until_is_saturating_difference', 'k3_max_timer_delay_value', 'k3_deadline_field_always_renderable', 'k1_errorkind_read_total_and_table'],
      technique=TECH_V + '; ' + TECH_K,
      assumptions=COMMON_V + ['A-delayqueue', 'A-clock', 'A-codec'],
      level_text='Panic freedom as proof obligations: DelayQueue::insert/remove preconditions (range, key present) discharged at every call site from the table invariant and the clamp; unknown ids change nothing; decoding any deadline duration or error code is total (CBMC, full domain).',
      level_note='Malformed frames are the codec\'s (dependency). humantime renders every timestamp before year 10000 (its documented contract) is assumed.',
      not_covered='malformed frames (codec)')
 prop('C18', SERVER_TOO, title='Trace context follows the request, and only that request',
-     verus=['client', 'trace_ctx'], kani=['k6_otel_id_conversions_round_trip'], technique=TECH_V,
+     verus=['client', 'trace_ctx'], native=['server_context_bounded'], kani=['k6_otel_id_conversions_round_trip'], technique=TECH_V + '; plus a bounded replay search (boundary-value grid through the public API) as a source of concrete failing inputs (never counted as proved)',
      assumptions=COMMON_V + ['A-otel', 'A-sink', 'A-rand'],
      level_text='Proof that the Request written carries exactly the context stored in the table under its id, and that the Cancel for an id carries the trace context stored for that id (same trace id, sampling and span id); contexts live in the entry of their own id (frame clauses), so concurrent requests cannot exchange them.',
      level_note='Child-context derivation (new_child, server start_request) is in K6/unit server when registered.',
@@ -143,7 +147,7 @@ prop('C04', NATIVE_SERVER, title='Servers stop cancelled work and cancellation c
      level_note='Known finding F8 (throttler at its limit with the sink not ready does not poll the inner channel) is reported as KNOWN-FINDING.',
      not_covered='multi-hop cascade is an argument over contracts (abort => handler future dropped => nested call guards fire), not a checked lemma; partial execution of an aborted handler is abstracted by the two-outcome Abortable model (R15)')
 prop('C06', title='Server enforces request deadlines, never early',
-     verus=['server'], kani=['k3_time_until_is_saturating_difference', 'k3_max_timer_delay_value'], technique=TECH_V + '; ' + TECH_K,
+     verus=['server'], native=['deadlines_bounded'], kani=['k3_time_until_is_saturating_difference', 'k3_max_timer_delay_value'], technique=TECH_V + '; ' + TECH_K,
      assumptions=COMMON_V + ['A-abortable', 'A-delayqueue', 'A-clock', 'A-sink'],
      level_text='Proof that start_request arms exactly one timer for the id with delay min(deadline - now, MAX_TIMER_DELAY); that an expiry aborts exactly the handle of the id its timer carried, removes that entry only; that a response for an expired id is dropped by start_send. Kani proves the arithmetic of time_until on the real code.',
      level_note='Known finding F8 is shared with C04. Timer accuracy is tokio-util\'s.')
@@ -167,17 +171,18 @@ prop('C19', title='Request hooks run in order and short-circuit correctly',
      level_note='The one-poll executor makes a suspending hook out of scope (hooks whose futures return Pending are resumed by the same state machine; not modelled). Unwinding assertions are on.',
      not_covered='hooks that suspend; `then_fn` closure adaptor (forwards to then)')
 prop('C20', title='Load-balancing and retry stubs keep their dispatch promises',
-     kani=['k5_cycle_next_is_counter_mod_len', 'k5_cycle_next_upto8', 'k5_round_robin_call_uses_next', 'k5_consistent_hash_valid_and_stable', 'k5_serve_as_stub_passes_through'],
+     verus=['lb_fairness'],
+     kani=['k5_cycle_next_is_counter_mod_len', 'k5_cycle_next_upto8', 'k5_round_robin_call_uses_next', 'k5_consistent_hash_valid_and_stable', 'k5_serve_as_stub_passes_through', 'k5_retry_attempts_numbered_and_last_result'],
      native=['retry_bounded'],
-     technique=TECH_K + '; Retry::call: bounded native stand-in (exhaustive to 5 attempts)',
+     technique=TECH_K + '; Retry::call: Kani harness bounded to 3 attempts (symbolic results/decisions/clock) plus a bounded native stand-in (exhaustive to 5 attempts)',
      assumptions=['A-verifiers', 'A-ids'],
      level_text='CBMC proof that State::next returns element (counter % len) and advances the atomic counter by exactly one for every counter value including the wrap (so concurrent calls get consecutive distinct counters); that ConsistentHash picks hash % len < len, never panics and is a function of the request hash only (symbolic hasher); that a Serve used as a Stub passes context, request and result through. Backend counts are enumerated (1..=4 / 1..=3): labelled bounded in that dimension.',
-     level_note='Retry::call is only checked by a bounded native stand-in (Kani ICE on tracing::trace!, Verus cannot take async trait fns): not counted as proved. The fairness corollary (per-backend counts differ by at most one over consecutive counters) is arithmetic on counter % len and is not machine-checked here.',
-     bounded=['backend count dimension enumerated (cycle 1..=4, consistent hash 1..=3, round robin 3)'],
-     not_covered='fairness corollary as a checked lemma; Retry beyond 5 attempts')
+     level_note='Retry::call is checked by a Kani harness on the real function with symbolic results, policy decisions, deadline and clock, bounded to 3 attempts (unwinding assertions on), and by a bounded native stand-in (5 attempts): both labelled bounded, not counted as proved for all attempt counts. The fairness corollary (per-backend counts differ by at most one over any m consecutive counter values, for every start value, m and backend count) is a Verus lemma over that contract (lemmas/round_robin_fair.rs); it assumes no wrap of the 64-bit counter (fewer than 2^64 calls).',
+     bounded=['backend count dimension enumerated (cycle 1..=4, consistent hash 1..=3, round robin 3)', 'Retry::call: at most 3 attempts under Kani, 5 in the native stand-in'],
+     not_covered='Retry beyond 5 attempts; round-robin fairness across a wrap of the 64-bit call counter')
 
 prop('C13', title='Per-key channel limit is never exceeded nor over-applied',
-     verus=['channels'], technique=TECH_V + '; Arc/Weak strong counts modelled by a threaded ghost world',
+     verus=['channels'], native=['channels_bounded'], technique=TECH_V + '; Arc/Weak strong counts modelled by a threaded ghost world; plus a bounded replay search through the public API as a source of concrete failing inputs (never counted as proved)',
      assumptions=COMMON_V + ['A-arc', 'A-mpsc'],
      level_text='Proof of a data-structure invariant over (key_counts, ghost world of live trackers): every tracker that still has a live yielded channel is the one recorded for its key and holds at most n channels; an entry is forgotten only when its tracker is dead. Every function of the filter (admission, close-notification processing incl. stale ones, the poll loop) preserves it; a lemma shows it is stable under channels being dropped by the environment at any time; admission is refused only if n channels of that key are alive at that moment.',
      level_note='Function-level atomicity w.r.t. channel drops inside increment_channels_for_key (between strong_count and upgrade) is assumed; key type instantiated with u64.',
